@@ -221,10 +221,13 @@ Lemma nia1_loop_unfold fuel i bound msg P E :
     end
   else SOk E.
 Proof. destruct fuel; reflexivity. Qed.
+Lemma fold_map_seq_cons (f:N -> N -> N) (g:nat -> N) i k E :
+  fold_left f (map g (seq i (S k))) E = fold_left f (map g (seq (S i) k)) (f E (g i)).
+Proof. reflexivity. Qed.
 Lemma fold_blocks_cons P msg i k E :
   fold_left (mstep P) (map (mblk msg) (seq i (S k))) E
   = fold_left (mstep P) (map (mblk msg) (seq (S i) k)) (mstep P E (mblk msg i)).
-Proof. reflexivity. Qed.
+Proof. exact (fold_map_seq_cons (mstep P) (mblk msg) i k E). Qed.
 
 Lemma nia1_loop_blocks msg P q : (8 * q < length msg)%nat ->
   forall k i fuel E, (i + k = q)%nat -> (k <= fuel)%nat ->
@@ -260,15 +263,25 @@ Proof.
   - intros x Hx. apply (bytes_ok_In msg x H). apply (In_skipn x (8 * i)), (In_firstn x 8), Hx.
   - apply firstn_le_length.
 Qed.
+Lemma fold_left_ext_inv {A B} (f g:A -> B -> A) (I:A -> Prop) (J:B -> Prop) l a :
+  I a -> Forall J l -> (forall a b, I a -> J b -> f a b = g a b /\ I (f a b)) ->
+  fold_left f l a = fold_left g l a /\ I (fold_left f l a).
+Proof.
+  intros Ha Hl H. revert a Ha; induction Hl as [|b l Hb Hl IH]; intros a Ha; [split; [reflexivity | exact Ha]|].
+  cbn [fold_left]. destruct (H a b Ha Hb) as [E Hi]. rewrite <- E. apply IH, Hi.
+Qed.
+Lemma mstep_spec P a b : lt64 a -> lt64 b -> mstep P a b = MUL64 (N.lxor a b) P 27 /\ lt64 (mstep P a b).
+Proof.
+  intros Ha Hb. rewrite mstep_eq. apply sec_mul_MUL64; [apply lxor_lt_64; assumption | unfold lt64; lia].
+Qed.
 Lemma fold_mstep_spec P msg l E : bytes_ok msg = true -> lt64 E ->
   fold_left (mstep P) (map (mblk msg) l) E = fold_left (fun e m => MUL64 (N.lxor e m) P 27) (map (mblk msg) l) E
   /\ lt64 (fold_left (mstep P) (map (mblk msg) l) E).
 Proof.
-  intros Hm. revert E; induction l as [|i l IH]; intros E HE; [split; [reflexivity | exact HE]|].
-  cbn [map fold_left]. unfold mstep at 1 3.
-  assert (Hx : lt64 (N.lxor E (mblk msg i))) by (apply lxor_lt_64; [exact HE | apply mblk_lt64, Hm]).
-  destruct (sec_mul_MUL64 (N.lxor E (mblk msg i)) P 27 Hx) as [E1 L1]; [unfold lt64; lia|].
-  rewrite <- E1. apply IH, L1.
+  intros Hm HE. apply (fold_left_ext_inv (mstep P) (fun e m => MUL64 (N.lxor e m) P 27) lt64 lt64).
+  - exact HE.
+  - apply Forall_forall. intros x Hx. apply in_map_iff in Hx. destruct Hx as [i [<- _]]. apply mblk_lt64, Hm.
+  - intros a b Ha Hb. apply mstep_spec; assumption.
 Qed.
 
 (* ------------------------------------------------------------------ IV *)
@@ -319,7 +332,7 @@ Proof.
   rewrite (cat64 _ _ (nth_lt32 z 0 Hz) (nth_lt32 z 1 Hz)), (cat64 _ _ (nth_lt32 z 2 Hz) (nth_lt32 z 3 Hz)).
   set (P := nth 0 z 0 * two32 + nth 1 z 0). set (Q := nth 2 z 0 * two32 + nth 3 z 0).
   change 0 with (N.of_nat 0) at 1.
-  rewrite (nia1_loop_blocks msg P q) with (k := q) by (rewrite <- En; lia).
+  rewrite (nia1_loop_blocks msg P q) with (k := q) by (try rewrite <- En; lia).
   assert (Eoff : w64 (8 * N.of_nat q) = N.of_nat (8 * q)) by (rewrite w64_mod, N.mod_small by lia; lia).
   rewrite Eoff. rewrite <- En. replace (N.of_nat n <? N.of_nat (8 * q)) with false by lia.
   rewrite Nat2N.id. f_equal.
@@ -376,4 +389,25 @@ Proof.
     cbn [AlgIntegrity128NIA0 AlgIntegrity128NIA1 N.eqb Pos.eqb].
     rewrite len64_times8 by exact Hn. rewrite NIA1_is_eia1 by assumption. reflexivity.
   - apply nas_mac_nia2_is_eia2; assumption.
+Qed.
+
+(* ------------------------------------------------------------------ the MAC is four octets (used by C06/C10) *)
+Lemma nia1_post_len z msg L t : nia1_post z msg L = SOk t -> length t = 4%nat.
+Proof.
+  unfold nia1_post. cbv zeta. destruct (nia1_loop _ _ _ _ _ _); try discriminate.
+  destruct (_ <? _); try discriminate. intro H. inversion H. unfold put_uint32.
+  rewrite app_length, N_to_be_length. reflexivity.
+Qed.
+Lemma cmac_aes128_length key m : key_ok key = true -> length (cmac aes128 key m) = 16%nat.
+Proof. intro Hk. unfold cmac. cbv zeta. apply aes128_length. unfold key_ok in Hk. apply Nat.eqb_eq, Hk. Qed.
+Theorem nas_mac_len4 alg key count bearer dir msg t :
+  nas_mac alg key count bearer dir msg = Some t -> alg = 1 \/ alg = 2 -> length t = 4%nat.
+Proof.
+  intros H Ha. unfold nas_mac in H. destruct (key_ok key) eqn:Hk; [|discriminate].
+  unfold NASMacCalculate in H.
+  destruct (31 <? bearer); [discriminate|]. destruct (1 <? dir); [discriminate|].
+  destruct Ha as [-> | ->]; cbn [AlgIntegrity128NIA0 AlgIntegrity128NIA1 AlgIntegrity128NIA2 N.eqb Pos.eqb] in H.
+  - rewrite NIA1_unfold in H. destruct (nia1_post _ _ _) eqn:Hp; try discriminate.
+    cbn [sres_opt] in H. inversion H; subst. apply (nia1_post_len _ _ _ _ Hp).
+  - unfold NIA2 in H. cbn [snd sres_opt] in H. inversion H. rewrite firstn_length, cmac_aes128_length by exact Hk. reflexivity.
 Qed.
